@@ -236,7 +236,7 @@ pub fn all() -> Vec<CheckDef> {
             id: "C18",
             run: c18::run,
             replay: c18::replay,
-            rule: "(b) bursts: 16 conflict kinds (two registrations / two renames for one nick, simultaneous first joins, JOINs racing for the last +l slot, MODE vs JOIN, KICK vs PRIVMSG, PRIVMSG vs NICK, KILL vs activity, last PART vs JOIN, INVITE vs JOIN, TOPIC vs KICK/de-rank, one message to four channels vs JOIN/PART of the same list, readers (WHO/WHOIS) vs writers, KICK vs the victim leaving, KILL vs a take-over of the nick, and random pairs of handlers from a 34-shape vocabulary) of 2-8 commands over 2-4 connections, a third of them behind a slow writer (OPER), written without waiting in a generated order and executed under a generated yield schedule at the H2 points (process_nick, authenticate, privmsg), with optional server password (Argon2 await); oracle = outcome (per-connection reply sequences, per (sender,receiver) relay sequences, final probe digest from every viewpoint, closes) equals that of SOME sequential order of the same commands (all interleavings respecting per-connection order, <= 720) on a fresh server, plus one winner per nick, one founder, members <= limit, every live connection answers PING; (a) pipelines: 2-6 connections each send 5-30 commands each followed by PING k in one or many writes; oracle = PONG k in order, every reply inside its command's segment, relays of one sender arrive in order; (c) bursts_parallel: the same bursts on a multi-thread runtime (2-8 workers, real time), outcome compared with sequential replays on the deterministic engine, stall = runtime idle with an unanswered PING; (d) slow_reader: a client on 20-200 channels pipelines 5-44 long-reply commands without reading (socket buffer 8-64 KB) - the others must still be answered, afterwards it gets every reply complete and in order; non-trivial = burst with >= 2 commands where a yield was taken (or no schedule) / any pipeline; distinct by (kind, yields taken, write order)",
+            rule: "(b) bursts: 16 conflict kinds (two registrations / two renames for one nick, simultaneous first joins, JOINs racing for the last +l slot, MODE vs JOIN, KICK vs PRIVMSG, PRIVMSG vs NICK, KILL vs activity, last PART vs JOIN, INVITE vs JOIN, TOPIC vs KICK/de-rank, one message to four channels vs JOIN/PART of the same list, readers (WHO/WHOIS) vs writers, KICK vs the victim leaving, KILL vs a take-over of the nick, and random pairs of handlers from a 34-shape vocabulary) of 2-8 commands over 2-4 connections, a third of them behind a slow writer (OPER), written without waiting in a generated order and executed under a generated yield schedule at the H2 points (process_nick, authenticate, privmsg), with optional server password (Argon2 await); oracle = outcome (per-connection reply sequences, per (sender,receiver) relay sequences, final probe digest from every viewpoint, closes) equals that of SOME sequential order of the same commands (all interleavings respecting per-connection order, <= 720) on a fresh server, plus one winner per nick, one founder, members <= limit, every live connection answers PING; (a) pipelines: 2-6 connections each send 5-30 commands each followed by PING k in one or many writes; oracle = PONG k in order, every reply inside its command's segment, relays of one sender arrive in order, every direct message arrives exactly once (a sixth of the cases: one connection floods another with 30-90 messages in a row); (c) bursts_parallel: the same bursts on a multi-thread runtime (2-8 workers, real time), outcome compared with sequential replays on the deterministic engine, stall = runtime idle with an unanswered PING; (d) slow_reader: a client on 20-200 channels pipelines 5-44 long-reply commands without reading (socket buffer 8-64 KB) - the others must still be answered, afterwards it gets every reply complete and in order; (e) counters_parallel / teardown_under_load / lusers_snapshot (multi-thread runtime): STATS m grows by exactly the number of commands sent at the same time; a session that ends while 40-80 connections keep the state lock busy is gone afterwards; every LUSERS reply read while 6-25 other connections register, change +i and leave describes one moment (251 users + invisible = 255 clients = 265 = 266 current, maxima not below); non-trivial = burst with >= 2 commands where a yield was taken (or no schedule) / any pipeline; distinct by (kind, yields taken, write order)",
             level: "exploration",
             assumptions: &["SIM single-threaded runtime: interleavings arise from write order, select! seed and the yields injected at the three H2 schedule points; true parallelism is explored only by sampling (part bursts_parallel: real time, schedules not replayable; an expired wait is inconclusive unless the runtime is idle)", "linearizability is judged against sequential executions of the same server code (differential), so a defect that is also present sequentially is left to the other properties"],
         },
